@@ -307,7 +307,12 @@ pub fn traces(args: &Args) -> i32 {
     let mut programs: Vec<String> = vec![];
     for _ in 0..n {
         let nch = 1 + rng.below(7) as usize;
-        let chunks: Vec<String> = (0..nch).map(|_| chunk(&mut rng, &vocab, 2)).collect();
+        let mut chunks: Vec<String> = (0..nch).map(|_| chunk(&mut rng, &vocab, 2)).collect();
+        // one program in four begins with a line of characters that take several bytes: every error further down
+        // (the truncations end in end-of-input errors) is located in a text where byte and character offsets differ
+        if rng.chance(1, 4) {
+            chunks[0] = format!("{}\n{}", pick(&mut rng, &["% éé", "é€", "% €", "ééé €€ é", "\\relax é", "%é"]), chunks[0]);
+        }
         let full = chunks.concat();
         // every chunk boundary, plus two cuts inside the text
         let mut acc = String::new();
